@@ -1,6 +1,7 @@
 from __future__ import annotations
 
 import ast
+import collections
 import copy
 import itertools
 import re
@@ -142,6 +143,12 @@ def iter_bodies_recursive(
                 yield node
 
 
+def _is_method(node: ast.AST, root: ast.Module) -> bool:
+    return any(
+        node in class_def.body for class_def in core.walk(root, ast.ClassDef)
+    )
+
+
 def safe_callable_names(root: ast.Module) -> Collection[str]:
     """Compute what functions can safely be called without having a side effect.
 
@@ -155,7 +162,29 @@ def safe_callable_names(root: ast.Module) -> Collection[str]:
         Collection[str]: Names of all functions that have no side effect when called.
     """
     defined_names = {node.id for node in core.walk(root, ast.Name(ctx=ast.Store))}
-    function_defs = list(core.walk(root, (ast.FunctionDef, ast.AsyncFunctionDef)))
+    # A name that is bound in several places, in whatever scopes, may be any of them where it is called
+    defined_names.update(node.arg for node in core.walk(root, ast.arg))
+    defined_names.update(
+        (alias.asname or alias.name).split(".")[0]
+        for node in core.walk(root, (ast.Import, ast.ImportFrom))
+        for alias in node.names
+    )
+    definition_counts = collections.Counter(
+        node.name
+        for node in core.walk(root, (ast.FunctionDef, ast.AsyncFunctionDef, ast.ClassDef))
+        if not _is_method(node, root)
+    )
+    defined_names.update(name for name, count in definition_counts.items() if count > 1)
+    function_defs = [
+        node
+        for node in core.walk(root, (ast.FunctionDef, ast.AsyncFunctionDef))
+        # What a decorator makes of a function is not known
+        if not node.decorator_list
+        or all(
+            core.match_template(decorator, ast.Name(id=("staticmethod", "classmethod")))
+            for decorator in node.decorator_list
+        )
+    ]
     safe_callables = set(constants.SAFE_CALLABLES)
     safe_callable_nodes = set()
     changes = True
@@ -186,6 +215,10 @@ def safe_callable_names(root: ast.Module) -> Collection[str]:
         function_defs = [node for node in function_defs if node.name not in safe_callables]
 
     for node in core.walk(root, ast.ClassDef):
+        if node.name in defined_names:
+            continue
+        if node.bases or node.keywords or node.decorator_list:
+            continue  # Creating an instance runs code of the bases, the metaclass or the decorator
         constructors = {
             child
             for child in node.body
